@@ -44,7 +44,10 @@ def read_real(kind, line):
 
     if kind in ("lic", "con"):
         pat = ex._LICENSE_IDENTIFIER_PATTERN if kind == "lic" else ex._CONTRIBUTOR_PATTERN
-        return list(ex.find_spdx_tag(line, pat))
+        out = list(ex.find_spdx_tag(line, pat))
+        if any(p.search(line) for p in ex._COPYRIGHT_PATTERNS):
+            out.append("(also read as copyright notice)")
+        return out
     out = []
     for ln in line.splitlines():
         for p in ex._COPYRIGHT_PATTERNS:
